@@ -211,6 +211,27 @@ func envOfEncrypted(e *messages.Encrypted) envMsg {
 	return envMsg{Salt: uint64(e.Salt), Sid: uint64(e.SessionID), Mid: uint64(e.MsgID), Seq: uint32(e.SeqNo), Body: e.Msg}
 }
 
+// envStreamErr: the error is about the connection (end of stream, reset, closed, timeout), not a refusal of the
+// packet that was read. Decided by what the error IS (its cause), not by how it is worded or wrapped.
+func envStreamErr(err error) bool {
+	c := err
+	for {
+		u, ok := c.(interface{ Cause() error })
+		if !ok || u.Cause() == nil {
+			break
+		}
+		c = u.Cause()
+	}
+	if c == io.EOF || c == io.ErrUnexpectedEOF || c == context.Canceled {
+		return true
+	}
+	if _, ok := c.(net.Error); ok {
+		return true
+	}
+	e := strings.ToLower(c.Error())
+	return strings.Contains(e, "use of closed") || strings.Contains(e, "connection reset") || strings.Contains(e, "broken pipe")
+}
+
 // envOpenErr maps DeserializeEncrypted's errors to the model's error classes.
 func envOpenErr(err error) string {
 	s := err.Error()
@@ -230,7 +251,9 @@ func envOpenErr(err error) string {
 	case strings.Contains(s, "auth key is too short"):
 		return "err:shortKey"
 	}
-	return "err:other(" + strings.ReplaceAll(s, " ", "_") + ")"
+	// a refusal whose text the harness does not know (a reworded message): the class is left open, see
+	// lib/vlib.py same_up_to_unknown_errors
+	return "err:?"
 }
 
 func envUnencErr(err error) string {
@@ -241,7 +264,7 @@ func envUnencErr(err error) string {
 	case strings.Contains(s, "not equal defined size"):
 		return "err:unencLength"
 	}
-	return "err:other(" + strings.ReplaceAll(s, " ", "_") + ")"
+	return "err:?"
 }
 
 // envInformator is the session as the serialiser sees it.
@@ -308,11 +331,11 @@ func envRoute(authKey, pkt []byte) string {
 			return fmt.Sprintf("code:%d", int(code))
 		}
 		s := err.Error()
-		if !strings.HasPrefix(s, "parsing message") {
-			if strings.HasPrefix(s, "wrong bits of message_id") {
-				return "err:parity2"
-			}
+		if envStreamErr(err) {
 			return "err:transport(" + strings.ReplaceAll(s, " ", "_") + ")"
+		}
+		if strings.HasPrefix(s, "wrong bits of message_id") {
+			return "err:parity2"
 		}
 		if strings.Contains(s, "Wrong bits of message_id") || strings.Contains(s, "not equal defined size") {
 			return envUnencErr(err)
